@@ -148,7 +148,8 @@ def colorize_doctest_body(s: str) -> Iterator[Union[str, Tag]]:
         # Example output:
         if want:
             style = 'py-except' if EXCEPT_RE.match(want) else 'py-output'
-            for line in want.rstrip().split('\n'):
+            # Only the final newline is dropped: trailing whitespace is part of the expected output.
+            for line in (want[:-1] if want.endswith('\n') else want).split('\n'):
                 yield tags.span(line, class_=style)
                 yield '\n'
         idx = match.end()
